@@ -903,7 +903,13 @@ func (q *checker) bcheckVar(n *a.Var) error {
 	}
 	// Local variables are zero-initialised: that includes every element of a
 	// (nested) array, whose own bounds are the placeholder [0 ..= 0].
-	if in := n.XType().Innermost(); (in != n.XType()) && in.IsNumType() {
+	in := n.XType()
+	for in.IsEitherArrayType() {
+		// Only arrays hold elements from the start: the zero value of a slice,
+		// table or pointer is empty / null, whatever its element refinement.
+		in = in.Inner()
+	}
+	if (in != n.XType()) && in.IsNumType() {
 		if ib := in.AsNode().MBounds(); (ib[0] != nil) && ((zero.Cmp(ib[0]) < 0) || (zero.Cmp(ib[1]) > 0)) {
 			return fmt.Errorf("check: default zero value is not within bounds %v for var %q",
 				ib, n.Name().Str(q.tm))
